@@ -21,7 +21,7 @@ type Ahead struct {
 // CheckPersisted evaluates C03 (a) on every prefix of a trace: after each call, no log entry
 // whose end position is <= the saved position of its sequence may be undelivered, unless the
 // too-long callback of that sequence has been called before. It returns the first violation.
-func CheckPersisted(log []Entry, chans []int64, initial Store, trace []Call) *Ahead {
+func CheckPersisted(log []Entry, chans []int64, initial Store, trace []Call, owed func(Entry) bool) *Ahead {
 	store := initial.Clone()
 	delivered := make([]bool, len(log))
 	reported := map[string]bool{}
@@ -48,7 +48,7 @@ func CheckPersisted(log []Entry, chans []int64, initial Store, trace []Call) *Ah
 			continue
 		}
 		for i, e := range log {
-			if delivered[i] || reported[e.Seq] {
+			if delivered[i] || reported[e.Seq] || !owed(e) {
 				continue
 			}
 			if saved := store.Pos(e.Seq, chans); e.End <= saved {
@@ -95,12 +95,15 @@ func Restart(cfg WorldCfg, store Store) (*World, bool, error) {
 	if err != nil {
 		return nil, false, err
 	}
+	defer w.Close()
 	w.Start()
 	prev := w.Key()
 	for round := 0; round < 8; round++ {
 		w.Apply(Event{Op: "diff"})
-		for i := range w.Chans {
-			w.Apply(Event{Op: "cdiff", I: i})
+		for i := range w.All {
+			if _, ok := w.chanAt(i); ok {
+				w.Apply(Event{Op: "cdiff", I: i})
+			}
 		}
 		k := w.Key()
 		if k == prev {
@@ -116,7 +119,11 @@ func StoreKey(s Store, chans []int64) string {
 	var sb strings.Builder
 	fmt.Fprintf(&sb, "%v/%d/%d/%d/%d", s.Found, s.State.Pts, s.State.Qts, s.State.Date, s.State.Seq)
 	for _, c := range chans {
-		fmt.Fprintf(&sb, "/%d:%d", c, s.Chans[c])
+		if p, ok := s.Chans[c]; ok {
+			fmt.Fprintf(&sb, "/%d:%d", c, p)
+		} else {
+			fmt.Fprintf(&sb, "/%d:absent", c)
+		}
 	}
 	return sb.String()
 }
